@@ -51,6 +51,9 @@ pub enum MemOp {
     Set(Vec<Reg>),
     Add(Reg),
     Rem { i: u16, how: RemHow },
+    /// SET_MEM_TABLE with the geometry of the table in force (same guest and front-end ranges, same order) but other
+    /// backing files / offsets: what a front end sends after it re-allocated its memory, or after a reconnect
+    Resend { file_rot: u8 },
 }
 
 #[derive(Serialize, Deserialize, Debug, Clone, Hash, PartialEq, Eq)]
@@ -170,6 +173,36 @@ fn run_generic<V: VringT<GM> + Clone + Send + Sync + 'static>(ctx: &mut Ctx, h: 
                     table = rs;
                 }
                 (ok, must)
+            }
+            MemOp::Resend { file_rot } => {
+                let mut sorted_table = table.clone();
+                sorted_table.sort_by_key(|r| r.gpa);
+                if sorted_table.is_empty() || sorted_table.len() > 32 {
+                    continue;
+                }
+                let nfiles = h.files.len().max(1);
+                let rs: Vec<R> = sorted_table
+                    .iter()
+                    .map(|r| {
+                        let cand = (r.file + 1 + *file_rot as usize % nfiles) % nfiles;
+                        let fits = h.files[cand].max(1) as u64 * PAGE >= r.size;
+                        if fits {
+                            R { file: cand, off: 0, unmappable: 0, ..*r }
+                        } else {
+                            R { unmappable: 0, off: r.off & !(PAGE - 1), ..*r }
+                        }
+                    })
+                    .collect();
+                let body = spec::b_mem_table(&rs.iter().map(|r| [r.gpa, r.size, r.ua, r.off]).collect::<Vec<_>>());
+                let fds: Vec<i32> = rs.iter().map(|r| fd_of(r)).collect();
+                let ok = s.acked(fe::SET_MEM_TABLE, &body, &fds)?;
+                ctx.class("table_resent_same_geometry_other_files");
+                nt = true;
+                if ok {
+                    removed.extend(table.iter().copied());
+                    table = rs;
+                }
+                (ok, Some(true))
             }
             MemOp::Add(reg) => {
                 let r = reg.resolve(&h.files);
@@ -340,7 +373,7 @@ fn run_generic<V: VringT<GM> + Clone + Send + Sync + 'static>(ctx: &mut Ctx, h: 
         }
     }
     if nt {
-        let key: Vec<String> = h.ops.iter().map(|o| match o { MemOp::Set(r) => format!("S{}", r.len()), MemOp::Add(_) => "A".into(), MemOp::Rem { how, .. } => format!("R{how:?}") }).collect();
+        let key: Vec<String> = h.ops.iter().map(|o| match o { MemOp::Set(r) => format!("S{}", r.len()), MemOp::Add(_) => "A".into(), MemOp::Rem { how, .. } => format!("R{how:?}"), MemOp::Resend { .. } => "Z".into() }).collect();
         ctx.nontrivial(&(h.rwlock, key, &h.ops));
         ctx.class("nontrivial");
     }
@@ -400,6 +433,7 @@ fn op_strategy() -> impl Strategy<Value = MemOp> {
         1 => proptest::collection::vec(reg_strategy(), 1..=8).prop_map(MemOp::Set),
         4 => reg_strategy().prop_map(MemOp::Add),
         3 => (any::<u16>(), prop_oneof![3 => Just(RemHow::Exact), 1 => Just(RemHow::WrongSize), 1 => Just(RemHow::Absent)]).prop_map(|(i, how)| MemOp::Rem { i, how }),
+        2 => any::<u8>().prop_map(|file_rot| MemOp::Resend { file_rot }),
     ]
 }
 
@@ -415,7 +449,7 @@ pub fn run(ctx: &mut Ctx) {
         "translation probes are skipped when the user ranges of two accepted regions overlap (the statement assumes a unique containing region)".into(),
         "failed back-end update_memory() callbacks are not injected (application code is trusted)".into(),
     ];
-    let cases = ctx.tier.pick(2500u32, 40_000u32);
+    let cases = ctx.tier.pick(1500u32, 40_000u32);
     let strat = (any::<bool>(), proptest::collection::vec(8u8..=80, 1..=4), proptest::collection::vec(op_strategy(), 1..=12))
         .prop_map(|(rwlock, files, ops)| Hist { rwlock, files, ops });
     ctx.prop_check("histories", cases, strat, |ctx, h| run_hist(ctx, h));
